@@ -249,4 +249,10 @@ theorem tag_byte_offsets_counterexample :
     (tokenize Classes.ascii W.tagbToks).any (fun s => !inLine (lineLens16 W.tagbText) (absOf s)) = true := by
   decide +kernel
 
+/-- `; p q ya:1, a:2`: the part `p q ya:1` is skipped, the tag `a:` is then found inside `ya:`. -/
+theorem tag_search_position_counterexample :
+    (tokenizeSrc Classes.ascii W.tagsToks).any (fun st =>
+      devTagSkippedPart Classes.ascii st.2 &&
+      !coversTag Classes.ascii W.tagsText st.2 (absOf st.1)) = true := by decide +kernel
+
 end HL.Props.C17
